@@ -11,19 +11,20 @@ import re
 import numpy
 import shapely
 
-from symx import builders, geo
+from symx import builders, env, geo
 from symx.core import And, Iff, Not, Or, same
 from symx.runner import Case, main_run, replay_file
+from symx.snap import snapshot, unchanged
 
 PROP = 'C04'
 
 
-def make(conv, shape, holes, skew):
+def make(conv, shape, holes, skew, mesh_opts=None):
     from emsarray.conventions.grid import CFGrid1D, CFGrid2D
     from emsarray.conventions.shoc import ShocSimple, ShocStandard
     from emsarray.conventions.ugrid import UGrid
     if conv == 'ugrid':
-        ds = builders.ugrid(shape, with_edges=True)
+        ds = builders.ugrid(shape, with_edges=True, **(mesh_opts or {}))
         return ds, UGrid(ds)
     ny, nx = shape
     if conv == 'cf1d':
@@ -62,11 +63,12 @@ def make(conv, shape, holes, skew):
     raise ValueError(conv)
 
 
-def body(ctx, conv, shape, holes, skew, via):
-    ds, cv = make(conv, shape, holes, skew)
+def body(ctx, conv, shape, holes, skew, via, mesh_opts=None, history=False):
+    ds, cv = make(conv, shape, holes, skew, mesh_opts)
     # one data variable on the face grid (a geometry-only dataset has nothing to select)
     fd = cv.grid_dimensions[cv.default_grid_kind]
     ds['temp'] = (tuple(fd), numpy.arange(int(numpy.prod([ds.sizes[d] for d in fd])), dtype=float).reshape([ds.sizes[d] for d in fd]))
+    snap = snapshot(ds)
     polygons = cv.polygons           # concrete geometry: real shapely
     N = len(polygons)
     xs = [c[0] for p in polygons if p is not None for c in p.exterior.coords]
@@ -83,6 +85,27 @@ def body(ctx, conv, shape, holes, skew, via):
         point = shapely.Point(px, py)
         inside = [None if polygons[n] is None else bool(polygons[n].intersects(point)) for n in range(N)]
 
+    if history:
+        # the answer for a point does not depend on what was asked before: an arbitrary earlier lookup on the
+        # same convention (its result is ignored) must not change any of the checks below
+        qx, qy = ctx.real('qx', hint=cx + 0.1), ctx.real('qy', hint=cy + 0.1)
+        earlier = geo.SymPoint(qx, qy) if ctx.symbolic else shapely.Point(qx, qy)
+        cv.get_index_for_point(earlier)
+        if ctx.symbolic:
+            tree.queries.clear()
+
+    try:
+        _lookups(ctx, cv, point, via, inside, polygons, N, tree if ctx.symbolic else None)
+    finally:
+        pass
+    ctx.check(unchanged(ds, snap), 'looking up a point leaves the dataset as it was')
+    if conv == 'ugrid':
+        cv2 = type(cv)(ds)
+        ctx.check(all(a.equals(b) for a, b in zip(cv2.polygons, polygons)),
+                  'a convention bound later to the same dataset has the same polygons')
+
+
+def _lookups(ctx, cv, point, via, inside, polygons, N, tree):
     if via == 'select_point':
         try:
             picked = cv.select_point(point)
@@ -95,7 +118,7 @@ def body(ctx, conv, shape, holes, skew, via):
 
     item = cv.get_index_for_point(point)
     if ctx.symbolic:
-        ctx.check(tree.queries == ['intersects'], 'one spatial query with predicate intersects')
+        ctx.note('spatial queries', list(tree.queries))     # how often the index is consulted is not part of the property
     if item is None:
         ctx.check(And(*[Not(i) for i in inside if i is not None]) if any(i is not None for i in inside) else True,
                   'no result only when no cell with geometry contains or touches the point')
@@ -108,6 +131,10 @@ def body(ctx, conv, shape, holes, skew, via):
     ctx.check(item.polygon is polygons[n], 'polygon field is the polygon at that linear index')
     ctx.check(tuple(item.index) == tuple(cv.wind_index(n)), 'native index and linear index describe the same cell')
     ctx.check(cv.ravel_index(item.index) == n, 'ravel_index(index) == linear_index')
+
+
+def PATCHES():
+    return env.patched(*geo.point_predicate_patches())
 
 
 def cases(tier):
@@ -125,7 +152,24 @@ def cases(tier):
             sh = shape if isinstance(shape, str) else f'{shape[0]}x{shape[1]}'
             yield Case(f'{conv}:{sh}:holes{len(holes)}:{"skew" if skew else "rect"}:{via}', body,
                        dict(conv=conv, shape=shape, holes=holes, skew=skew, via=via), max_paths=20000,
-                       split=(32 if not q else 16))
+                       split=(32 if not q else 16), patches=PATCHES)
+    # one-based connectivity stored without a fill value (integer arrays straight from the file)
+    for mesh in (['fan'] if q else ['fan', 'tri', 'strip5']):
+        for mo in (dict(start_index=1, fill='none'), dict(start_index=1, fill='none', transposed=True)):
+            tag = '+'.join(f'{k}={v}' for k, v in mo.items())
+            yield Case(f'ugrid:{mesh}:{tag}:get_index_for_point', body,
+                       dict(conv='ugrid', shape=mesh, holes=(), skew=False, via='get_index_for_point', mesh_opts=mo),
+                       max_paths=20000, split=16, patches=PATCHES)
+    # two lookups in a row on one convention: (earlier point, point) both symbolic
+    hist = [('cf1d', (2, 2), (), False), ('cf2d', (2, 2), (), True), ('ugrid', 'tqp', (), False)]
+    if not q:
+        hist += [('cf1d', (2, 3), (), False), ('shoc_standard', (2, 2), (), True), ('ugrid', 'fan', (), False),
+                 ('cf2d', (2, 3), ((0, 1),), False)]
+    for conv, shape, holes, skew in hist:
+        sh = shape if isinstance(shape, str) else f'{shape[0]}x{shape[1]}'
+        yield Case(f'{conv}:{sh}:holes{len(holes)}:{"skew" if skew else "rect"}:after-earlier-lookup', body,
+                   dict(conv=conv, shape=shape, holes=holes, skew=skew, via='get_index_for_point', history=True),
+                   max_paths=60000, split=64, patches=PATCHES)
 
 
 def functions():
